@@ -1249,3 +1249,108 @@ def gen_huge(rng):
         steps.append({"op": "call", "h": "r", "m": "insert", "signer": own, "args": {"key": B("big"), "val": {"ty": "bytes", "v": [7] * 70000}}})
         steps.append({"op": "call", "h": "r", "m": "remove_insert", "signer": own, "args": {"remove": [], "insert": [[B("big"), [7] * 70000]]}})
     return [{"sid": sid(), "steps": steps}]
+
+
+# ---------------------------------------------------------------- C09 (and C04/C05/C06/C08): exact aiming at the limit
+def _inc_be(seq):
+    n = int.from_bytes(bytes(seq), "big") + 1
+    return be(n)
+
+
+def _put(pairs, k, v):
+    d = {bytes(p[0]): p[1] for p in pairs}
+    d[bytes(k)] = v
+    return [[list(k2), d[k2]] for k2 in sorted(d)]
+
+
+def _del(pairs, k):
+    return [p for p in pairs if bytes(p[0]) != bytes(k)]
+
+
+def _apply_py(pairs, seq, m, a):
+    """driver-side prediction of the candidate of a simple update (only used to AIM at a result size)"""
+    nseq = _inc_be(seq)
+    if m == "set_seq":
+        return pairs, [b for b in a["seq"]]
+    if m in ("set_tcp4", "set_tcp6", "set_udp4", "set_udp6"):
+        k = {"set_tcp4": "tcp", "set_tcp6": "tcp6", "set_udp4": "udp", "set_udp6": "udp6"}[m]
+        return _put(pairs, B(k), enc_uint(a["port"])), nseq
+    if m == "set_ip":
+        return _put(pairs, B("ip" if len(a["ip"]) == 4 else "ip6"), enc_str(a["ip"])), nseq
+    if m == "insert":
+        return _put(pairs, a["key"], enc_str(a["val"]["v"])), nseq
+    if m == "insert_raw_rlp":
+        return _put(pairs, a["key"], a["raw"]), nseq
+    if m in ("set_udp_socket", "set_tcp_socket"):
+        v6 = len(a["ip"]) == 16
+        pk = ("udp" if m == "set_udp_socket" else "tcp") + ("6" if v6 else "")
+        return _put(_put(pairs, B("ip6" if v6 else "ip"), enc_str(a["ip"])), B(pk), enc_uint(a["port"])), nseq
+    if m == "set_client_info":
+        items = [enc_str(a["name"]), enc_str(a["version"])] + ([enc_str(a["build"][0])] if a["build"] else [])
+        return _put(pairs, B("client"), enc_list(items)), nseq
+    if m == "remove_insert":
+        ps = pairs
+        for k in a["remove"]:
+            ps = _del(ps, k)
+        for k, v in a["insert"]:
+            ps = _put(ps, k, enc_str(v))
+        return ps, nseq
+    if m in ("remove_key",):
+        return _del(pairs, a["key"]), nseq
+    if m in ("remove_udp4",):
+        return _del(pairs, B("udp")), nseq
+    if m in ("remove_tcp_socket",):
+        return _del(_del(pairs, B("ip")), B("tcp")), nseq
+    if m == "set_public_key":
+        return pairs, nseq
+    raise KeyError(m)
+
+
+def gen_size_exact(rng, kts=("k256", "libsecp", "ed", "comb"), targets=range(296, 305), seqs=None, obs="core", per_kt=None):
+    """for every mutator, every sequence-number class and every result size around the limit: a pre-state whose
+    filler is chosen so that the RESULT of the update has exactly that size"""
+    sid = Sid("sizex")
+    seqs = seqs or [[1], [127], [255], [255, 255], [255, 255, 255], [255] * 7]
+    calls = [
+        ("set_tcp4", {"port": 30303}), ("set_udp6", {"port": 0}), ("set_ip", {"ip": [10, 0, 0, 1]}), ("set_ip", {"ip": [0] * 15 + [1]}),
+        ("insert", {"key": B("y"), "val": {"ty": "bytes", "v": [5] * 9}}), ("insert_raw_rlp", {"key": B("yy"), "raw": enc_list([enc_str([1]), enc_str([])])}),
+        ("set_udp_socket", {"ip": [10, 0, 0, 2], "port": 9000}), ("set_udp_socket", {"ip": [0xfe, 0x80] + [0] * 13 + [2], "port": 9000}),
+        ("set_tcp_socket", {"ip": [10, 0, 0, 2], "port": 80}), ("set_tcp_socket", {"ip": [0x20, 1] + [0] * 13 + [3], "port": 65535}),
+        ("set_client_info", {"name": B("geth"), "version": B("1.2.3"), "build": []}),
+        ("remove_insert", {"remove": [B("udp")], "insert": [[B("w"), [7] * 11]]}),
+        ("remove_insert", {"remove": [], "insert": [[B("dup"), [7] * 40], [B("dup"), [7]]]}),
+        ("remove_key", {"key": B("nothing")}), ("remove_udp4", {}), ("remove_tcp_socket", {}),
+        ("set_seq", {"seq": [255] * 8}), ("set_seq", {"seq": [1, 0]}), ("set_public_key", {"pk_of": "OWN"}),
+    ]
+    out = []
+    for kt in kts:
+        own = signers_for(kt)[0]
+        base = sorted([[B("id"), enc_str(B("v4"))], [B(pk_key(own)), enc_str(KEYS[own]["pk"])],
+                       [B("ip"), enc_str([10, 0, 0, 9])], [B("udp"), enc_uint(1)], [B("tcp"), enc_uint(65535)]], key=lambda p: bytes(p[0]))
+        steps = []
+        combos = [(m, a, sq, t) for (m, a) in calls for sq in seqs for t in targets]
+        if per_kt is not None and len(combos) > per_kt:
+            combos = rng.sample(combos, per_kt)
+        for m, a, sq, target in combos:
+            a = dict(a)
+            if a.get("pk_of") == "OWN":
+                a["pk_of"] = own
+            hit = None
+            for n in range(0, 230):
+                pre = sorted(base + [[B("zpad"), enc_str([0xAA] * n)]], key=lambda p: bytes(p[0]))
+                if rec_len(sq, pre) > 300:
+                    break
+                post, nseq = _apply_py(pre, sq, m, a)
+                if rec_len(nseq, post) == target:
+                    hit = pre
+                    break
+            if hit is None:
+                continue
+            steps.append({"op": "decode", "h": "r", "kt": kt, "input": {"rec": {"seq": sq, "pairs": hit, "sig": {"by": own}}}, "tag": "sizex_%d" % target})
+            steps.append({"op": "call", "h": "r", "m": m, "args": a, "signer": own, "obs": obs})
+            if len(steps) >= 400:
+                out.append({"sid": sid(), "steps": steps})
+                steps = []
+        if steps:
+            out.append({"sid": sid(), "steps": steps})
+    return out
